@@ -39,9 +39,20 @@ def main():
                 for cnt in (0, 8, 12):
                     jobs.append(dict(harness='h_api_v2.cpp', ll=ll, entry='h_op', params=dict(base, count=cnt), models=['abs_v2_any_conc'], known=ck.known, must_reach=['call'], replay='none',
                                      allow_throw='none', eng_opts=eo, label=name, max_bugs=10))
+    # every double bit pattern as an argument (NaN, infinities, huge, tiny): the setters and snapshot writers that take doubles, both generations
+    XD_OPS = (102, 103, 105, 110, 114, 116, 121, 126, 152)
+    for op in XD_OPS:
+        for mdl in ('abs_v2_any_conc',):
+            jobs.append(dict(harness='h_api_v2.cpp', ll=ll, entry='h_op', params={'op': op, 'schema': 6, 'wide': 1, 'count': 9, 'xd': 1}, models=[mdl], known=ck.known, must_reach=['call'], replay='none',
+                             allow_throw='none', eng_opts=eo, label=allops[op] + ' (any double)', max_bugs=10, time_limit=900))
     try:
         import api_v1
         jobs += api_v1.jobs_c15(ck)
+        for op in XD_OPS:
+            for sc in ([10, 0] if Q else [0, 3, 10]):
+                for mdl in ('abs_v1_any_conc',):
+                    jobs.append(dict(harness='h_api_v1.cpp', ll=api_v1.ll(defines=['_GLIBCXX_ASSERTIONS'], tag='.assert'), entry='h_op', params={'op': op, 'schema': sc, 'wide': 1, 'count': 9, 'gen': 1, 'xd': 1},
+                                     models=[mdl], known=ck.known, must_reach=['call'], replay='none', allow_throw='none', eng_opts=eo, label='v1 ' + allops[op] + ' (any double)', max_bugs=10, time_limit=900))
     except ImportError: pass
     # kernels: 1.x encoders with 0..12 slots (fixed-size buffer), long labels; monitors only
     ll1 = driver.compile_ir('h_codec_v1.cpp'); driver.load_module(ll1)
@@ -51,9 +62,9 @@ def main():
             jobs.append(dict(harness='h_codec_v1.cpp', ll=ll1, entry='h_rt1_' + kind, params={'k1': k, 'll': 2, 'mask': (1 << k) - 1}, models=['zlib_identity'], known=ck.known,
                              other_property_kinds=['assert']))
     ck.add_results(run_jobs(jobs))
-    ck.extra['bounds'] = {'operations': sorted(allops.values()), 'arguments': 'slot index every int in -1..9; cue/loop lists of 0, 8, 9, 12 entries; entity ids arbitrary; numeric setter arguments integer-valued doubles up to 2^20 and arbitrary int32',
+    ck.extra['bounds'] = {'operations': sorted(allops.values()), 'arguments': 'slot index every int in -1..9; cue/loop lists of 0, 8, 9, 12 entries; entity ids arbitrary; numeric setter arguments integer-valued doubles up to 2^20 and arbitrary int32; in the "any double" runs (set_average_loudness, set_beatgrid, set_bpm, set_hot_cue_at, set_loop_at, set_main_cue, set_sample_rate, update, create_track) every double argument / snapshot field is an arbitrary bit pattern (NaN, infinities, huge, subnormal)',
                           'database': 'every SELECT answers 0 or 1 rows (a removed track / crate answers 0); numeric columns in [0, 2^31]; blob columns: encoding of an arbitrary valid struct (symbolic content for the operations that interpret it)',
-                          'outside': 'schema 1.x glue; NaN / infinite / > 2^20 double arguments to setters that cast to integer (set_bpm: the cast is undefined for values >= 2^63, stated as outside); corrupted chains (cycles) in the database; UB inside SQLite or libz'}
+                          'outside': 'corrupted chains (cycles) in the database; UB inside SQLite or libz'}
     ck.assumptions = ['abstract sqlite3 model over-approximates reachable database states; counterexamples are solver models over its answers and are not replayed against a real SQLite',
                       'chains are well formed (a single answered row is the tail)']
     ck.trusted = ['clang-14 lowering + UBSan trap instrumentation', 'lsx executor monitors', 'lsx/models_sqlite.py', 'z3']
